@@ -39,7 +39,7 @@ META = {
                     'no fault space exists for this property (sequential refinement only)'],
     'probe_names': ['frag_into_frag', 'frag_insert_middle', 'empty_frag', 'equal_text_siblings',
                     'reinsertion_of_removed', 'normalize_merged', 'clone_deep', 'clone_shallow', 'attr_frag',
-                    'cmp_deep_common_ancestor', 'setitem_frag', 'detached_target', 'dfs_exhaustive'],
+                    'cmp_deep_common_ancestor', 'setitem_frag', 'detached_target', 'dfs_exhaustive', 'str_argument'],
     'shrink_budget': 500,
     'enum_batch': {'quick': 4, 'thorough': 1},
 }
@@ -47,7 +47,7 @@ META = {
 TAGS = ['a', 'b', 'c']
 TEXTS = ['x', 'y', 'x', ' ', 'zz', 'x', '']
 OPS = ['NEW_ELEM', 'NEW_TEXT', 'NEW_FRAG', 'APPEND', 'INSERT', 'INSERT_BEFORE', 'INSERT_AFTER',
-       'REPLACE', 'REMOVE', 'POP', 'SETITEM', 'EXTEND', 'SETATTR', 'NORMALIZE', 'CLONE']
+       'REPLACE', 'REMOVE', 'POP', 'SETITEM', 'EXTEND', 'SETATTR', 'NORMALIZE', 'CLONE', 'STR']
 
 
 def generate(seed, tier):
@@ -87,6 +87,9 @@ def generate(seed, tier):
             ops.append({'op': o, 't': r.randrange(64), 'deep': r.random() < 0.7})
         elif o == 'SETATTR':
             ops.append({'op': o, 't': r.randrange(64), 'a': r.randrange(64), 'key': r.choice(['k1', 'k2'])})
+        elif o == 'STR':
+            ops.append({'op': o, 'how': r.choice(['append', 'insert', 'setitem']), 't': r.randrange(64), 'i': r.randrange(64),
+                        'text': r.choice(TEXTS)})
         else:
             ops.append({'op': o, 't': r.randrange(64), 'a': r.randrange(64), 'i': r.randrange(64),
                         'neg': r.random() < 0.2})
@@ -241,6 +244,33 @@ class World(object):
         if o == 'NEW_FRAG':
             if len(self.nodes) < 20:
                 self.new_frag(op['kids'])
+            return
+        if o == 'STR':
+            # a plain str argument: the DOM turns it into a text node of this document itself
+            if len(self.nodes) >= 30:
+                return
+            tg = [m for m in self.targets(False) if m.kind == 'e']
+            if not tg:
+                return
+            t = tg[op['t'] % len(tg)]
+            n = len(t.children)
+            how = op['how']
+            if how == 'setitem' and n == 0:
+                how = 'append'
+            i = op['i'] % (n + 1) if how == 'insert' else (op['i'] % n if how == 'setitem' else n)
+            if how == 'append':
+                t.real.append(op['text'])
+            elif how == 'insert':
+                t.real.insert(i, op['text'])
+            else:
+                t.real[i] = op['text']
+                self._removed_once.append(self._model_remove(t, i))
+            real = list(t.real)[i]
+            m = self._reg(M('t', real, text=op['text']))
+            t.children.insert(i, m)
+            m.parent = t
+            self.info['str_argument'] = 1
+            self.changed += 1
             return
         allow_frag = o in ('APPEND', 'INSERT', 'EXTEND')
         tg = self.targets(allow_frag)
